@@ -411,6 +411,38 @@ def sweep_records(c: Check, rule: str, prefixes, floor: int = 1) -> int:
             if init is None or not init.self_name:
                 continue
             params = {p.arg for p in init.params[1:]}
+            # a constructor hands a parameter on to the base class under the same name, as given
+            for n in walk_own(init.node):
+                if isinstance(n, ast.Call) and isinstance(n.func, ast.Attribute) and n.func.attr == '__init__' \
+                        and (unparse(n.func.value) == 'super()' or (n.args and isinstance(n.args[0], ast.Name)
+                                                                    and n.args[0].id == init.self_name)):
+                    base_init = None
+                    if unparse(n.func.value) == 'super()':
+                        for k in ix.mro(cls)[1:]:
+                            if isinstance(k, ClassDef) and k.methods.get('__init__') is not None:
+                                base_init = k.methods['__init__']
+                                break
+                        args = list(n.args)
+                    else:
+                        d = ix.resolve_static(cls.module, init, n.func.value)
+                        base_init = d.methods.get('__init__') if isinstance(d, ClassDef) else None
+                        args = list(n.args[1:])
+                    if base_init is None:
+                        continue
+                    bp = [p.arg for p in base_init.positional_params()[1:]]
+                    bound = dict(zip(bp, args))
+                    for kw in n.keywords:
+                        if kw.arg:
+                            bound[kw.arg] = kw.value
+                    for q, a in sorted(bound.items()):
+                        mentions = any(isinstance(x, ast.Name) and x.id == q for x in ast.walk(a))
+                        if q in params and mentions:
+                            judged += 1
+                            conditional = any(isinstance(x, (ast.IfExp, ast.BoolOp)) for x in ast.walk(a))
+                            c.expect(not conditional, rule, '%s.__init__->base(%s)' % (cls.key, q),
+                                     '%s hands %s to its base class as parameter %s: the value it was given is replaced '
+                                     'under a condition (every reader of the record sees something else than what the '
+                                     'constructor was called with)' % (cls.name, unparse(a)[:60], q), init.loc())
             stored: Dict[str, set] = {}
             for st in walk_own(init.node):
                 if isinstance(st, ast.Assign) and len(st.targets) == 1 and isinstance(st.targets[0], ast.Attribute) \
